@@ -242,7 +242,10 @@ def run(tier, seed):
     # cells of special form - exactly orthogonal (cubic, tetragonal, orthorhombic), two right angles (each unique axis), hexagonal - with
     # GENERAL rotations: a fast path for "all angles 90" or for a diagonal B is only right if it is right for every U
     special = [[4, 4, 4, 0, 0, 0], [4, 4, 9, 0, 0, 0], [4, 9, 25, 0, 0, 0], [16, 9, 4, 0, 0, 0], [4, 9, 16, -2, 0, 0], [4, 9, 16, 0, 3, 0],
-               [4, 9, 16, 0, 0, -1], [4, 4, 9, 0, 0, -2], [6, 6, 6, 1, 1, 1], [1, 25, 4, 0, 0, 0]]
+               [4, 9, 16, 0, 0, -1], [4, 4, 9, 0, 0, -2], [6, 6, 6, 1, 1, 1], [1, 25, 4, 0, 0, 0],
+               # strongly oblique, Gram determinant 0.028 .. 0.04: at the edge of the quantifier (>= 0.02), where an over-cautious "nearly
+               # coplanar" test would refuse a valid cell
+               [50, 50, 7, 0, 0, -49], [50, 50, 7, 0, 0, 49], [10, 10, 10, 9, 9, 9], [7, 50, 50, 49, 0, 0]]
     rots = list(AXIS) + [draw_rotation(rng, 3 if tier == "quick" else 6) for _ in range(nr)]
     pairs = []
     for i, (p, q) in enumerate(rots):
